@@ -1,7 +1,7 @@
 SPECIFICATION Spec
 CONSTANTS
   NQ = 1
-  MaxT = 8
+  MaxT = 4
 INVARIANT Unitarity
 INVARIANT CHDocstringMatrixIsNotUnitary
 INVARIANT Paulis
